@@ -161,6 +161,13 @@ func sequential(api calls.API, c Case, bufs []*calls.Buf, shared map[int]*shared
 
 // concurrent runs the goroutines and returns the first mismatch per goroutine.
 func concurrent(api calls.API, c Case, bufs []*calls.Buf, shared map[int]*sharedPatch, want map[string]calls.Result) []string {
+	return concurrentMode(api, c, bufs, shared, want, false)
+}
+
+// concurrentMode with allPrivate: every step uses the goroutine's own buffers
+// and its own DecodePatch (one round) - what a cold start runs first, so that
+// the very first DecodePatch, Apply, merge and encode calls of the process overlap.
+func concurrentMode(api calls.API, c Case, bufs []*calls.Buf, shared map[int]*sharedPatch, want map[string]calls.Result, allPrivate bool) []string {
 	oc := sharedOpts(c)
 	big := calls.BigIndexPatches(c.Bufs)
 	old := runtime.GOMAXPROCS(c.Procs)
@@ -183,8 +190,13 @@ func concurrent(api calls.API, c Case, bufs []*calls.Buf, shared map[int]*shared
 				return priv[i].B
 			}
 			<-start
-			for r := 0; r < c.Rounds; r++ {
+			rounds := c.Rounds
+			if allPrivate {
+				rounds = 1
+			}
+			for r := 0; r < rounds; r++ {
 				for i, st := range th {
+					st.Private = st.Private || allPrivate
 					if st.Skips(big) {
 						continue // index above 10^4 under EnsurePathExistsOnAdd: outside the stated domain
 					}
@@ -291,6 +303,26 @@ func runCold(c Case, want map[string]calls.Result) error {
 	return fmt.Errorf("INFRA cold-start child gave no result (%v): %s", err, headOf(s, 600))
 }
 
+// wantFrom rebuilds the signature-keyed expectations from the hash-keyed transfer form.
+func wantFrom(c Case, hw map[string]calls.Result) (map[string]calls.Result, bool) {
+	want := map[string]calls.Result{}
+	big := calls.BigIndexPatches(c.Bufs)
+	for _, th := range c.Threads {
+		for _, st := range th {
+			if st.Skips(big) {
+				continue
+			}
+			sig := st.Sig(c.Bufs)
+			r, ok := hw[sigKey(sig)]
+			if !ok {
+				return nil, false
+			}
+			want[sig] = r
+		}
+	}
+	return want, true
+}
+
 func sigKey(sig string) string {
 	h := sha256.Sum256([]byte(sig))
 	return hex.EncodeToString(h[:])
@@ -320,7 +352,23 @@ func TestColdChild(t *testing.T) {
 		bufs[i] = calls.NewBuf(b)
 	}
 	msg := ""
-	shared, err := prepare(api, c, bufs)
+	// first: nothing at all has run in this process; every goroutine decodes and applies on its own
+	var shared map[int]*sharedPatch
+	var err error
+	if w0, ok := wantFrom(c, req.Want); ok {
+		for _, e := range concurrentMode(api, c, bufs, nil, w0, true) {
+			if e != "" {
+				msg = "(first calls of the process, all private) " + e
+				break
+			}
+		}
+	}
+	if msg != "" {
+		b, _ := json.Marshal(msg)
+		fmt.Printf("COLD-RESULT %s\n", b)
+		return
+	}
+	shared, err = prepare(api, c, bufs)
 	if err != nil {
 		msg = err.Error()
 	} else {
